@@ -1321,7 +1321,8 @@ func explainInExprWithAlias(sb *strings.Builder, n *ast.InExpr, alias string, in
 			}
 		} else {
 			// Check if all items are string literals (large list case - no wrapper)
-			allStringLiterals := true
+			// (an empty list is not such a list: it is output as one empty Function tuple below)
+			allStringLiterals := len(n.List) > 0
 			for _, item := range n.List {
 				if lit, ok := item.(*ast.Literal); !ok || lit.Type != ast.LiteralString {
 					allStringLiterals = false
